@@ -166,6 +166,10 @@ func runIndex(sc *IndexScenario) (st pathStats, err error) {
 						stable: fmt.Sprintf("ToStrings(%s build, prefix=%v) differs from the reference index %q", buildNames[v], lead, w),
 						full:   fmt.Sprintf("ToStrings(%s build, prefix=%v) = %q on repetition %d, reference index is %q", buildNames[v], lead, got, r, w)}
 				}
+				// the returned index belongs to the caller: overwrite it (spare capacity included) before converting again
+				for g, i := got[:cap(got)], 0; i < len(g); i++ {
+					g[i] = "scribbled"
+				}
 			}
 		}
 		if v == buildForward {
